@@ -116,8 +116,9 @@ def kern_record(case, f2, tid):
         sc = otproject.script_of_tag(s["tag"])
         sc = otproject.ALIASES.get(sc, sc)
         tags.append({"tag": s["tag"], "script": sc, "rtl": otproject.script_is_rtl(sc)})
+    declared = bool((ufo.get("lib") or {}).get("public.openTypeCategories")) or "GlyphClassDef" in (ufo.get("fea") or "")
     return {"tid": tid, "n": len(order), "order": order, "glyphs": [props[n] for n in order], "kerning": kerning, "groups": groups,
-            "q": int(case.get("q", 1)), "tags": tags, "F": F}
+            "q": int(case.get("q", 1)), "tags": tags, "F": F, "declared": declared}
 
 
 import re
